@@ -527,16 +527,16 @@ impl SvgElement {
     fn into_bytesstart(self) -> BytesStart<'static> {
         let mut bs = BytesStart::new(self.name);
         for (k, v) in &self.attrs {
-            bs.push_attribute(Attribute::from((k.as_bytes(), v.as_bytes())));
+            bs.push_attribute(Attribute::from((k.as_str(), v.as_str())));
         }
         if !self.classes.is_empty() {
             bs.push_attribute(Attribute::from((
-                "class".as_bytes(),
+                "class",
                 self.classes
                     .into_iter()
                     .collect::<Vec<String>>()
                     .join(" ")
-                    .as_bytes(),
+                    .as_str(),
             )));
         }
         bs
